@@ -4,7 +4,7 @@ bytecode_player.h (`BytecodePlayer::seek`), bytecode_array.hpp, loop_stack.cpp, 
 and `sb_rgb_color_linear_interpolation` of colors.c.
 
 `unsigned long` is 64 bits: wrap-around is modelled (`% 2^64`).  Conversions between integers
-and `float` go through `roundF32`; conversions back that would be out of range are `fault`.
+and `float` go through `roundF32`; conversions back saturate (as the code does).
 No signal source is attached (the C API offers no way to attach one): channel commands give black,
 triggers never fire.
 -/
@@ -50,20 +50,20 @@ def ulToF (n : Nat) : Rat := roundF32 (n : Rat)
 /-- `long` → `float` -/
 def lToF (n : Nat) : Rat := if n < W / 2 then roundF32 (n : Rat) else roundF32 ((n : Rat) - (W : Rat))
 
-/-- float (integer-valued here) → `unsigned long`; out of range is undefined behaviour -/
-def fToUl (q : Rat) : R Nat :=
-  if -1 < q ∧ q < (W : Rat) then .ok (if q < 0 then 0 else q.floor.toNat) else .error .fault
-/-- float → `signed long`, returned as its 64-bit pattern -/
-def fToL (q : Rat) : R Nat :=
-  if -(W / 2 : Nat) - 1 < q ∧ q < ((W / 2 : Nat) : Rat) then
-    .ok (if q < 0 then (W - (-q).floor.toNat) % W else q.floor.toNat)
-  else .error .fault
+/-- float (integer-valued here) → `unsigned long`, saturating at 0 and `ULONG_MAX` -/
+def fToUl (q : Rat) : Nat :=
+  if q ≤ 0 then 0 else if q ≥ (W : Rat) then W - 1 else q.floor.toNat
+/-- float → `signed long` (returned as its 64-bit pattern), saturating at `LONG_MIN` / `LONG_MAX` -/
+def fToL (q : Rat) : Nat :=
+  if q ≥ ((W / 2 : Nat) : Rat) then W / 2 - 1
+  else if q ≤ -((W / 2 : Nat) : Rat) then W / 2
+  else (if q < 0 then (W - (-q).floor.toNat) % W else q.floor.toNat)
 
 /-- `absoluteToInternalTime` : `round((msSigned - m_lastClockResetTime) / 1.0f)` as `signed long` -/
-def absToInternal (e : Exec) (ms : Nat) : R Nat := fToL (ulToF (subU64 ms e.lastReset))
+def absToInternal (e : Exec) (ms : Nat) : Nat := fToL (ulToF (subU64 ms e.lastReset))
 
 /-- `internalToAbsoluteTime(long ms)` : `round(m_lastClockResetTime + ms * 1.0f)` as `unsigned long` -/
-def internalToAbs (e : Exec) (ms : Nat) : R Nat := fToUl (roundF32 (ulToF e.lastReset + lToF ms))
+def internalToAbs (e : Exec) (ms : Nat) : Nat := fToUl (roundF32 (ulToF e.lastReset + lToF ms))
 
 /-- `ArrayBytecodeStore::next` (never suspended) -/
 def nextByte (e : Exec) : Nat × Exec :=
@@ -88,12 +88,10 @@ def nextVarint (e : Exec) : Nat × Exec := nextVarintLoop (e.size + 2) e 0 0
 def delayUntilAbs (e : Exec) (ms : Nat) : Exec := { e with nextWakeup := max e.nextWakeup ms }
 
 /-- `delayExecutionUntil` -/
-def delayUntil (e : Exec) (ms : Nat) : R Exec := do
-  let a ← internalToAbs e ms
-  pure (delayUntilAbs e a)
+def delayUntil (e : Exec) (ms : Nat) : Exec := delayUntilAbs e (internalToAbs e ms)
 
 /-- `handleDelayByte` -/
-def handleDelayByte (e : Exec) : R Exec :=
+def handleDelayByte (e : Exec) : Exec :=
   let (v, e1) := nextVarint e
   let duration := u64 (v * Gen.msPerUnit)
   let e2 := { e1 with cumulative := u64 (e1.cumulative + duration) }
@@ -102,10 +100,10 @@ def handleDelayByte (e : Exec) : R Exec :=
 def setColorAndResetTransition (e : Exec) (c : Color) : Exec := { e with color := c, startColor := c }
 
 /-- `setClockOriginToCurrentTimestamp` -/
-def setClockOrigin (e : Exec) (ts : Nat) : R Exec := do
+def setClockOrigin (e : Exec) (ts : Nat) : Exec :=
   let e1 := { e with lastReset := ts }
-  let n ← absToInternal e1 ts
-  pure { e1 with cumulative := if n ≥ W / 2 then 0 else n }
+  let n := absToInternal e1 ts
+  { e1 with cumulative := if n ≥ W / 2 then 0 else n }
 
 /-- `sb_rgb_color_linear_interpolation` on one channel: `clamp(first + (second - first) * ratio, 0, 255)`
 truncated to `uint8_t`, in exact arithmetic -/
@@ -130,18 +128,16 @@ def transitionStep (e : Exec) (clock : Nat) : Exec :=
   { e with color := lerp e.startColor e.endColor p, trActive := decide (p < 1) }
 
 /-- `fadeColorOfLEDStrip` -/
-def fadeTo (e : Exec) (c : Color) : R Exec := do
+def fadeTo (e : Exec) (c : Color) : Exec :=
   let now := e.cmdStart
-  let e1 ← handleDelayByte e
+  let e1 := handleDelayByte e
   let actual := subU64 e1.nextWakeup now
   let e2 := { e1 with endColor := c, trStart := e1.cmdStart, trDuration := actual, trActive := true }
   let e3 := transitionStep e2 now
   -- a fade that completes immediately leaves its target as the start colour of the next fade
-  pure (if e3.trActive then e3 else { e3 with startColor := e3.endColor })
+  if e3.trActive then e3 else { e3 with startColor := e3.endColor }
 
-def setTo (e : Exec) (c : Color) : R Exec := do
-  let e1 ← handleDelayByte e
-  pure (setColorAndResetTransition e1 c)
+def setTo (e : Exec) (c : Color) : Exec := setColorAndResetTransition (handleDelayByte e) c
 
 /-- `LoopStack::begin` -/
 def loopBegin (e : Exec) (loc iters : Nat) : Exec :=
@@ -164,18 +160,17 @@ def next3 (e : Exec) : (Nat × Nat × Nat) × Exec :=
   ((a, b, c), e3)
 
 /-- `executeNextCommand` -/
-def execCommand (e : Exec) : R Exec :=
-  if e.ended then .ok { e with nextWakeup := u64 (e.cmdStart + 60000) }
+def execCommand (e : Exec) : Exec :=
+  if e.ended then { e with nextWakeup := u64 (e.cmdStart + 60000) }
   else
     let (code, e) := nextByte e
-    if code = Gen.CMD_END then .ok { e with ended := true }
-    else if code = Gen.CMD_NOP then .ok e
+    if code = Gen.CMD_END then { e with ended := true }
+    else if code = Gen.CMD_NOP then e
     else if code = Gen.CMD_SLEEP then handleDelayByte e
-    else if code = Gen.CMD_WAIT_UNTIL then do
+    else if code = Gen.CMD_WAIT_UNTIL then
       let (v, e1) := nextVarint e
-      let e2 ← delayUntil e1 (u64 (v * Gen.msPerUnitWaitUntil))
-      let c ← absToInternal e2 e2.nextWakeup
-      pure { e2 with cumulative := c }
+      let e2 := delayUntil e1 (u64 (v * Gen.msPerUnitWaitUntil))
+      { e2 with cumulative := absToInternal e2 e2.nextWakeup }
     else if code = Gen.CMD_SET_COLOR then
       let (c, e1) := next3 e
       setTo e1 c
@@ -194,8 +189,8 @@ def execCommand (e : Exec) : R Exec :=
     else if code = Gen.CMD_FADE_TO_WHITE then fadeTo e white
     else if code = Gen.CMD_LOOP_BEGIN then
       let (iters, e1) := nextByte e
-      .ok (loopBegin e1 e1.pc iters)
-    else if code = Gen.CMD_LOOP_END then .ok (loopEnd e)
+      (loopBegin e1 e1.pc iters)
+    else if code = Gen.CMD_LOOP_END then (loopEnd e)
     else if code = Gen.CMD_RESET_CLOCK then setClockOrigin e e.cmdStart
     else if code = Gen.CMD_SET_COLOR_FROM_CHANNELS then
       let (_, e1) := next3 e
@@ -205,38 +200,38 @@ def execCommand (e : Exec) : R Exec :=
       fadeTo e1 black
     else if code = Gen.CMD_JUMP then
       let (addr, e1) := nextVarint e
-      if addr < Gen.addressBound then .ok { e1 with pc := addr, loops := [] }
-      else .ok { e1 with ended := true }
+      if addr < Gen.addressBound then { e1 with pc := addr, loops := [] }
+      else { e1 with ended := true }
     else if code = Gen.CMD_TRIGGERED_JUMP then
       let (params, e1) := nextByte e
       let needAddr := (params &&& 0x10 ≠ 0) ∨ (params &&& 0x20 ≠ 0)
       if needAddr then
         let (addr, e2) := nextVarint e1
-        if addr < Gen.addressBound then .ok e2 else .ok { e2 with ended := true }
-      else .ok e1
+        if addr < Gen.addressBound then e2 else { e2 with ended := true }
+      else e1
     else if code = Gen.CMD_SET_PYRO then
       let (m, e1) := nextByte e
-      if m &&& 128 ≠ 0 then .ok { e1 with pyro := (e1.pyro ||| (m &&& 127)) % 256 }
-      else .ok { e1 with pyro := e1.pyro &&& ((255 - ((m ||| 128) % 256)) % 256) }
+      if m &&& 128 ≠ 0 then { e1 with pyro := (e1.pyro ||| (m &&& 127)) % 256 }
+      else { e1 with pyro := e1.pyro &&& ((255 - ((m ||| 128) % 256)) % 256) }
     else if code = Gen.CMD_SET_PYRO_ALL then
       let (v, e1) := nextByte e
-      .ok { e1 with pyro := v &&& 127 }
-    else .ok { e with ended := true }
+      { e1 with pyro := v &&& 127 }
+    else { e with ended := true }
 
-/-- `CommandExecutor::step(now)`; returns the next wake-up time -/
-def step (e : Exec) (now : Nat) : R Exec := do
-  let e1 ← if e.resetFlag then do
-      let e' ← setClockOrigin e now
-      pure { (setColorAndResetTransition e' black) with resetFlag := false, nextWakeup := now }
-    else pure e
-  if e1.ended then pure { e1 with nextWakeup := u64 (now + 60000) }
+/-- `CommandExecutor::step(now)`; the returned executor carries the next wake-up time -/
+def step (e : Exec) (now : Nat) : Exec :=
+  let e1 :=
+    if e.resetFlag then
+      { (setColorAndResetTransition (setClockOrigin e now) black) with resetFlag := false, nextWakeup := now }
+    else e
+  if e1.ended then { e1 with nextWakeup := u64 (now + 60000) }
   else
     let e2 :=
       if e1.trActive then
         let e' := transitionStep e1 now
         if e'.trActive then e' else { e' with startColor := e'.endColor }
       else e1
-    if now ≥ e2.nextWakeup then execCommand { e2 with cmdStart := now } else pure e2
+    if now ≥ e2.nextWakeup then execCommand { e2 with cmdStart := now } else e2
 
 /-- `CommandExecutor::rewind` -/
 def rewindExec (e : Exec) : Exec :=
@@ -261,8 +256,8 @@ def Player.fresh (prog : Bytes) : Player :=
 def seekLoop (target : Nat) : Nat → Player → R Player
   | 0, _ => .error .fault
   | fuel + 1, p =>
-    if target > p.next then do
-      let e ← step p.exec p.next
+    if target > p.next then
+      let e := step p.exec p.next
       let proposal := if e.nextWakeup < p.next then p.next + 1 else e.nextWakeup
       seekLoop target fuel { exec := e, current := p.next, next := proposal }
     else .ok p
@@ -271,7 +266,7 @@ def seekLoop (target : Nat) : Nat → Player → R Player
 def Player.seek (p : Player) (target : Nat) (fuel : Nat) : R Player := do
   let p1 := if target < p.current then { exec := rewindExec p.exec, current := 0, next := 0 } else p
   let p2 ← seekLoop target fuel p1
-  let e ← step p2.exec target
+  let e := step p2.exec target
   pure { exec := e, current := target, next := e.nextWakeup }
 
 def Player.pyroChannels (p : Player) : Nat := p.exec.pyro &&& ((1 <<< Gen.numPyroChannels) - 1)
